@@ -1,44 +1,258 @@
 (* C10 - UpdateValuesForPath changes only the addressed values and reports how many.
-   Statements only; proofs in Proofs/C10P.v, specification in Spec/UpdateSpec.v. *)
-From Mxj Require Import Model.TreeOps Spec.PathSem Spec.UpdateSpec Proofs.KVTotal Proofs.C10P.
+   Statements only; proofs in Proofs/C10P.v and Proofs/C10Q.v; the specification
+   (which positions a call addresses: [addressed], and what writing there means: [writes])
+   is Spec/UpdateSpec.v.  Positions ([pos], [get_at]) are those of Model/TreeOps.v. *)
+From Mxj Require Import Model.TreeOps Spec.PathSem Spec.UpdateSpec Proofs.C07P Proofs.KVTotal Proofs.C10P Proofs.C10Q.
 
 Theorem C10_update_no_panic : forall pf sep m nv path sk, update_values_for_path pf sep m nv path sk <> Panic.
 Proof. exact update_no_panic. Qed.
 Print Assumptions C10_update_no_panic.
 
-(* ---- a count of zero leaves the Map untouched: every Map, path, sub-keys, new value ---- *)
-Theorem C10_update_zero_untouched : forall pf sep m nv path subkeys m',
-  update_values_for_path pf sep m nv path subkeys = Ok (m', 0) -> m' = m.
-Proof. exact update_zero_untouched. Qed.
-Print Assumptions C10_update_zero_untouched.
+(* ---- 1. exactness: for every Map with distinct keys per map (every Go map), every path
+        (plain keys and wildcards), all sub-keys, every new value: the result is the Map with the
+        new value written at exactly the addressed positions, and the count is their number ---- *)
+Theorem C10_update_exact : forall pf sep m nvl path sks sk key nv,
+  get_sub_key_map pf sep sks = Ok sk -> parse_newval pf sep nvl = Ok (key, nv) -> wfb m = true ->
+  update_values_for_path pf sep m nvl path sks =
+  Ok (writes (addressed key sk (split1 dot path) m) nv m, length (addressed key sk (split1 dot path) m)).
+Proof. exact update_exact. Qed.
+Print Assumptions C10_update_exact.
 
 (* the walker, on key lists *)
-Theorem C10_update_kp_zero : forall key nv sk ks m m',
-  update_kp key nv ks sk m = (m', 0) -> m' = m.
-Proof. exact update_kp_zero. Qed.
-Print Assumptions C10_update_kp_zero.
+Theorem C10_update_kp_exact : forall key nv sk ks m,
+  ks <> [] -> wfb m = true ->
+  update_kp key nv ks sk m = (writes (addressed key sk ks m) nv m, length (addressed key sk ks m)).
+Proof. exact update_kp_exact. Qed.
+Print Assumptions C10_update_kp_exact.
 
-(* ---- the last path key c applied to a map: exactly the entry targets are written, one count each ---- *)
+(* the last path key c applied to the node the rest of the path reached (map, "*", list) *)
+Theorem C10_update_value_exact : forall key nv sk m c,
+  wfb m = true ->
+  update_value key nv m c sk = (writes (node_targets key sk c m) nv m, length (node_targets key sk c m)).
+Proof. exact update_value_exact. Qed.
+Print Assumptions C10_update_value_exact.
+
+(* ... and to one map for a concrete last key (no side condition) *)
 Theorem C10_update_value_key_exact : forall key nv sk mm c,
   VMap (fst (update_value_key key nv mm c sk)) = writes (entry_targets key sk mm c) nv (VMap mm) /\
   snd (update_value_key key nv mm c sk) = length (entry_targets key sk mm c).
 Proof. exact uvk_exact. Qed.
 Print Assumptions C10_update_value_key_exact.
 
+(* malformed sub-keys or new value: an error and no result Map *)
+Theorem C10_update_bad_subkeys : forall pf sep m nvl path sks e,
+  get_sub_key_map pf sep sks = Err e -> update_values_for_path pf sep m nvl path sks = Err e.
+Proof. exact update_bad_subkeys. Qed.
+Print Assumptions C10_update_bad_subkeys.
+
+Theorem C10_update_bad_newval : forall pf sep m nvl path sks sk e,
+  get_sub_key_map pf sep sks = Ok sk -> parse_newval pf sep nvl = Err e ->
+  update_values_for_path pf sep m nvl path sks = Err e.
+Proof. exact update_bad_newval. Qed.
+Print Assumptions C10_update_bad_newval.
+
+(* ---- 2. only values stored under the key of newVal: every addressed position ends in that key,
+        or is a member of the list stored under it ---- *)
+Theorem C10_addressed_under_key : forall key sk ks m p,
+  In p (addressed key sk ks m) -> under_key key p.
+Proof. exact addressed_under. Qed.
+Print Assumptions C10_addressed_under_key.
+
+(* the addressed positions are pairwise incomparable - none equal to, above or below another -
+   so the count is the number of distinct places written and the order of the writes is immaterial *)
+Theorem C10_addressed_NoDup : forall key sk ks m, wfb m = true -> NoDup (addressed key sk ks m).
+Proof. exact addressed_NoDup. Qed.
+Print Assumptions C10_addressed_NoDup.
+
+Theorem C10_addressed_incomparable : forall key sk ks m p q,
+  wfb m = true -> In p (addressed key sk ks m) -> In q (addressed key sk ks m) -> p <> q ->
+  comparable p q = false.
+Proof. exact addressed_incomparable. Qed.
+Print Assumptions C10_addressed_incomparable.
+
+(* ... and after the call every addressed position holds the new value *)
+Theorem C10_update_lands : forall pf sep m nvl path sks sk key nv m' n p,
+  get_sub_key_map pf sep sks = Ok sk -> parse_newval pf sep nvl = Ok (key, nv) -> wfb m = true ->
+  update_values_for_path pf sep m nvl path sks = Ok (m', n) ->
+  In p (addressed key sk (split1 dot path) m) -> get_at p m' = Some nv.
+Proof. exact update_lands. Qed.
+Print Assumptions C10_update_lands.
+
+(* ---- 3. frame: every position that is neither above nor below an addressed position holds
+        exactly what it held before (absent stays absent) ---- *)
+Theorem C10_update_frame : forall pf sep m nvl path sks sk key nv m' n q,
+  get_sub_key_map pf sep sks = Ok sk -> parse_newval pf sep nvl = Ok (key, nv) -> wfb m = true ->
+  update_values_for_path pf sep m nvl path sks = Ok (m', n) ->
+  (forall p, In p (addressed key sk (split1 dot path) m) -> comparable p q = false) ->
+  get_at q m' = get_at q m.
+Proof. exact update_frame. Qed.
+Print Assumptions C10_update_frame.
+
+(* the two lemmas behind it, for any value tree *)
+Theorem C10_write_at_frame : forall nv p q m,
+  comparable p q = false -> get_at q (write_at p nv m) = get_at q m.
+Proof. exact write_at_frame. Qed.
+Print Assumptions C10_write_at_frame.
+
+Theorem C10_writes_frame : forall nv q ps m,
+  (forall p, In p ps -> comparable p q = false) -> get_at q (writes ps nv m) = get_at q m.
+Proof. exact writes_frame. Qed.
+Print Assumptions C10_writes_frame.
+
+(* ---- 4. a count of zero leaves the Map untouched: every Map (no side condition), path, sub-keys, new value ---- *)
+Theorem C10_update_zero_untouched : forall pf sep m nv path subkeys m',
+  update_values_for_path pf sep m nv path subkeys = Ok (m', 0) -> m' = m.
+Proof. exact update_zero_untouched. Qed.
+Print Assumptions C10_update_zero_untouched.
+
+Theorem C10_update_kp_zero : forall key nv sk ks m m',
+  update_kp key nv ks sk m = (m', 0) -> m' = m.
+Proof. exact update_kp_zero. Qed.
+Print Assumptions C10_update_kp_zero.
+
+(* ---- 5. update, then query: the path ends in the key of newVal (not "*", not empty), no sub-keys,
+        the new value is not a list: ValuesForPath(path) on the result yields exactly count copies of it.
+        Every Map (no side condition), every plain/wildcard path ---- *)
+Theorem C10_update_then_query : forall pf sep m nvl path key nv m' n,
+  parse_newval pf sep nvl = Ok (key, nv) ->
+  str_eqb key star = false -> key <> [] -> is_list nv = false ->
+  mem_ascii lbr path = false -> last (split1 dot path) [] = key ->
+  update_values_for_path pf sep m nvl path [] = Ok (m', n) ->
+  values_for_path pf sep m' path [] = Ok (repeat nv n).
+Proof. exact update_then_query. Qed.
+Print Assumptions C10_update_then_query.
+
+(* on key lists *)
+Theorem C10_update_kp_then_eval : forall key nv,
+  str_eqb key star = false -> is_list nv = false ->
+  forall ks, ks <> [] -> last ks [] = key ->
+  forall m, eval ks (fst (update_kp key nv ks [] m)) = repeat nv (snd (update_kp key nv ks [] m)).
+Proof. exact update_kp_then_eval_fst. Qed.
+Print Assumptions C10_update_kp_then_eval.
+
+(* the side conditions are needed: empty key, list-valued new value *)
+Theorem C10_update_then_query_conditions_needed :
+  (exists m m', update_values_for_path nopf10 (s":") m (NVMap [(s"", VInt 2)]) (s"a.") [] = Ok (m', 1) /\
+                vpath m' "a." = Ok [VMap [(s"", VInt 2)]]) /\
+  (exists m m', update_values_for_path nopf10 (s":") m (NVMap [(s"b", VList [VInt 7; VInt 8])]) (s"a.b") [] = Ok (m', 1) /\
+                vpath m' "a.b" = Ok [VInt 7; VInt 8]).
+Proof. exact update_then_query_conditions_needed. Qed.
+Print Assumptions C10_update_then_query_conditions_needed.
+
+(* ---- 6. the new value: a single-entry map, or "key:value[:type]" ---- *)
+Theorem C10_newval_map : forall pf sep k v, parse_newval pf sep (NVMap [(k, v)]) = Ok (k, v).
+Proof. exact newval_map. Qed.
+Print Assumptions C10_newval_map.
+
+Theorem C10_newval_map_len : forall pf sep m, length m <> 1 -> parse_newval pf sep (NVMap m) = Err EOther.
+Proof. exact newval_map_len. Qed.
+Print Assumptions C10_newval_map_len.
+
+Theorem C10_newval_str2 : forall pf sep x k v,
+  split sep x = [k; v] -> parse_newval pf sep (NVStr x) = Ok (k, VStr v).
+Proof. exact newval_str2. Qed.
+Print Assumptions C10_newval_str2.
+
+Theorem C10_newval_str3 : forall pf sep x k v t, split sep x = [k; v; t] ->
+  parse_newval pf sep (NVStr x) =
+  if existsb (str_eqb t) [s "bool"; s "boolean"] then
+    match parse_bool v with Some b => Ok (k, VBool b) | None => Err EOther end
+  else if existsb (str_eqb t) [s "num"; s "numeric"; s "float"; s "int"] then
+    match pf v with Some f => Ok (k, VFlt f) | None => Err EOther end
+  else Err EOther.
+Proof. exact newval_str3. Qed.
+Print Assumptions C10_newval_str3.
+
+Theorem C10_newval_str_parts : forall pf sep x,
+  length (split sep x) < 2 \/ 3 < length (split sep x) -> parse_newval pf sep (NVStr x) = Err EOther.
+Proof. exact newval_str_parts. Qed.
+Print Assumptions C10_newval_str_parts.
+
+Theorem C10_newval_other : forall pf sep, parse_newval pf sep NVOther = Err EOther.
+Proof. exact newval_other. Qed.
+Print Assumptions C10_newval_other.
+
+(* ---- 7. recorded findings: [addressed] describes what the code does; in two shapes that is not
+        what the property's text says (KNOWN_FINDINGS: create-on-absent, list-node-last-key-ignored) ---- *)
+(* the path ends in k, the reached map holds no k: the entry is created and counted *)
+Theorem C10_create_on_absent_refuted :
+  exists m m', vpath m "a.k" = Ok [] /\ upd m "k:new" "a.k" = Ok (m', 1) /\ m' <> m /\
+               vpath m' "a.k" = Ok [VStr (s"new")].
+Proof. exact create_on_absent_refuted. Qed.
+Print Assumptions C10_create_on_absent_refuted.
+
+(* the node before the last key is a list, the last key z is not k: z is ignored, k is rewritten in the members *)
+Theorem C10_list_node_refuted :
+  exists m m', vpath m "doc.list.z" = Ok [] /\ upd m "k:new" "doc.list.z" = Ok (m', 2) /\
+               vpath m' "doc.list.k" = Ok [VStr (s"new"); VStr (s"new")].
+Proof. exact list_node_last_key_ignored_refuted. Qed.
+Print Assumptions C10_list_node_refuted.
+
+(* ... and the k entry of the maps the path does yield (doc.list[*].z) is not replaced *)
+Theorem C10_list_node_misses_refuted :
+  exists m, vpath m "doc.list.z" = Ok [VMap [(s"k", VInt 1)]] /\ upd m "k:new" "doc.list.z" = Ok (m, 0).
+Proof. exact list_node_misses_refuted. Qed.
+Print Assumptions C10_list_node_misses_refuted.
+
+(* the same list-node shape with the last key equal to k (seen by the harness oracle as "update-differs"):
+   a map node gets the member-wise replacement inside its list-valued k entry, a list node does not *)
+Theorem C10_list_node_memberwise_refuted :
+  let inner := VList [VMap [(s"list", VStr (s"true"))]; VMap [(s"list", VStr (s"v:w"))]] in
+  let inner' := VList [VStr (s"new"); VMap [(s"list", VStr (s"v:w"))]] in
+  let upd1 m := update_values_for_path nopf10 (s":") m (NVStr (s"b:new")) (s"k.b") [s"list:true"] in
+  upd1 (VMap [(s"k", VMap [(s"b", inner)])]) = Ok (VMap [(s"k", VMap [(s"b", inner')])], 1) /\
+  upd1 (VMap [(s"k", VList [VMap [(s"b", inner)]])]) = Ok (VMap [(s"k", VList [VMap [(s"b", inner)]])], 0).
+Proof. exact list_node_memberwise_refuted. Qed.
+Print Assumptions C10_list_node_memberwise_refuted.
+
 (* ---- non-vacuity ---- *)
 Local Open Scope string_scope.
 Definition nopf : str -> option flt := fun _ => None.
+Definition bk10 (a t : string) : value := VMap [(s"author", VStr (s a)); (s"title", VStr (s t))].
 Definition ex10 : value :=
-  VMap [(s"doc", VMap [(s"books", VList [
-           VMap [(s"author", VStr (s"A")); (s"title", VStr (s"T1"))];
-           VMap [(s"author", VStr (s"B")); (s"title", VStr (s"T2"))]]);
-         (s"n", VInt 1)])].
+  VMap [(s"doc", VMap [(s"books", VList [bk10 "A" "T1"; bk10 "B" "T2"]);
+                       (s"shelf", VMap [(s"books", bk10 "C" "T3"); (s"title", VStr (s"S"))]);
+                       (s"n", VInt 1)])].
 
-Example C10_ex_update :
-  update_values_for_path nopf (s":") ex10 (NVStr (s"title:X")) (s"doc.books") [s"author:B"] =
-    Ok (VMap [(s"doc", VMap [(s"books", VList [
-           VMap [(s"author", VStr (s"A")); (s"title", VStr (s"T1"))];
-           VMap [(s"author", VStr (s"B")); (s"title", VStr (s"X"))]]);
-         (s"n", VInt 1)])], 1) /\
-  update_values_for_path nopf (s":") ex10 (NVStr (s"title:X")) (s"doc.books") [s"author:C"] = Ok (ex10, 0).
+(* exactness and frame: one of three titles below doc.*.books is addressed and replaced *)
+Example C10_ex_exact :
+  wfb ex10 = true /\
+  get_sub_key_map nopf (s":") [s"author:B"] = Ok [(s"author", VStr (s"B"))] /\
+  parse_newval nopf (s":") (NVStr (s"title:X")) = Ok (s"title", VStr (s"X")) /\
+  addressed (s"title") [(s"author", VStr (s"B"))] (split1 dot (s"doc.*.books")) ex10 =
+    [[SK (s"doc"); SK (s"books"); SI 1; SK (s"title")]] /\
+  update_values_for_path nopf (s":") ex10 (NVStr (s"title:X")) (s"doc.*.books") [s"author:B"] =
+    Ok (VMap [(s"doc", VMap [(s"books", VList [bk10 "A" "T1"; bk10 "B" "X"]);
+                             (s"shelf", VMap [(s"books", bk10 "C" "T3"); (s"title", VStr (s"S"))]);
+                             (s"n", VInt 1)])], 1) /\
+  comparable [SK (s"doc"); SK (s"books"); SI 1; SK (s"title")] [SK (s"doc"); SK (s"books"); SI 1; SK (s"author")] = false /\
+  comparable [SK (s"doc"); SK (s"books"); SI 1; SK (s"title")] [SK (s"doc"); SK (s"shelf")] = false /\
+  update_values_for_path nopf (s":") ex10 (NVStr (s"title:X")) (s"doc.books") [s"author:Z"] = Ok (ex10, 0).
 Proof. vm_compute. repeat split. Qed.
+
+(* update then query, with a wildcard: the path ends in the key of newVal *)
+Example C10_ex_query :
+  parse_newval nopf (s":") (NVStr (s"title:X")) = Ok (s"title", VStr (s"X")) /\
+  str_eqb (s"title") star = false /\ mem_ascii lbr (s"doc.*.title") = false /\
+  last (split1 dot (s"doc.*.title")) [] = s"title" /\
+  (exists m', update_values_for_path nopf (s":") ex10 (NVStr (s"title:X")) (s"doc.*.title") [] = Ok (m', 3) /\
+              values_for_path nopf (s":") m' (s"doc.*.title") [] = Ok [VStr (s"X"); VStr (s"X"); VStr (s"X")]) /\
+  parse_newval nopf (s":") (NVStr (s"n:true:bool")) = Ok (s"n", VBool true) /\
+  under_key (s"title") [SK (s"doc"); SK (s"books"); SI 1; SK (s"title")].
+Proof.
+  split; [vm_compute; reflexivity|]. split; [reflexivity|]. split; [reflexivity|].
+  split; [vm_compute; reflexivity|]. split.
+  - eexists. split; vm_compute; reflexivity.
+  - split; [vm_compute; reflexivity|]. left. exists [SK (s"doc"); SK (s"books"); SI 1]. reflexivity.
+Qed.
+
+(* landing and frame, read off with get_at; a wildcard last key addresses several pairwise incomparable positions *)
+Example C10_ex_lands :
+  (exists m', update_values_for_path nopf (s":") ex10 (NVStr (s"title:X")) (s"doc.*.books") [s"author:B"] = Ok (m', 1) /\
+     get_at [SK (s"doc"); SK (s"books"); SI 1; SK (s"title")] m' = Some (VStr (s"X")) /\
+     get_at [SK (s"doc"); SK (s"books"); SI 1; SK (s"author")] m' = Some (VStr (s"B")) /\
+     get_at [SK (s"doc"); SK (s"shelf")] m' = get_at [SK (s"doc"); SK (s"shelf")] ex10) /\
+  addressed (s"title") [] (split1 dot (s"doc.*")) ex10 =
+    [[SK (s"doc"); SK (s"books"); SI 0; SK (s"title")]; [SK (s"doc"); SK (s"books"); SI 1; SK (s"title")];
+     [SK (s"doc"); SK (s"shelf"); SK (s"title")]].
+Proof. split; [eexists; split; [vm_compute; reflexivity|]|]; vm_compute; repeat split. Qed.
